@@ -454,6 +454,8 @@ func (s *Sim) Setup() {
 				s.injectLegacyPod(e, n, PodState{Kind: "ready"})
 			}
 			if s.W.Foreign {
+				// a DaemonSet of the same name in another namespace, with its own pods
+				s.injectForeignPod("other-ns", e.OldDS+"-x-"+n.Name, n.Name, map[string]string{"app": "legacy"}, e.OldDS)
 				s.injectForeignPod(e.NS, "aaa-other-"+n.Name, n.Name, map[string]string{"app": "legacy"}, "other-ds")
 				s.injectForeignPod(e.NS, "zzz-bare-"+n.Name, n.Name, map[string]string{"app": "legacy"}, "")
 			}
